@@ -14,6 +14,8 @@ def judge_factory(rec, cfg):
     if rec.crash is not None:
         if rec.crash[0] == "livelock":
             v("C20", "livelock", f"more than 20000 kernel events at simulated time {rec.crash[1]} without the clock advancing")
+        elif rec.crash[0] in cfg.get("invalid", []):
+            pass      # a configuration generated outside the documented domain, rejected with the documented error
         else:
             v("C20", "crash:" + rec.crash[0], f"unhandled {rec.crash[0]} escaped env.step() at t={rec.crash[-1]}: {rec.crash[1][:120]}")
     # ---------------- item bookkeeping from the movement trace
@@ -42,9 +44,48 @@ def judge_factory(rec, cfg):
         if d > prev_disc.get(nid, 0):
             drops[ai] = (nid, witem.get((nid, a["proc"])))
         prev_disc[nid] = d
-    events = sorted([(m[0], 0, m) for m in rec.moves] + [(ai, 1, (ai, rec.acts[ai]["t"], "drop", None, it, nid)) for ai, (nid, it) in drops.items()],
+    # splitters / combiners: the units each must emit, in order; every put consumes the next one, every rise of the
+    # discard counter drops the next one (puts of an activation come before its drops: a worker resumes with a put)
+    pack_drop_events = []
+    pending = {i: [] for i, k in enumerate(kinds) if k in ("combiner", "splitter")}
+    cpallet = {}; pack_emit = {i: [] for i in pending}     # per node: list of (unit, "put"/"drop", t)
+    moves_at = {}
+    for mi, m in enumerate(rec.moves): moves_at.setdefault(m[0], []).append((m, rec.move_content[mi]))
+    pdisc2 = {}
+    for ai, a in enumerate(rec.acts):
+        nid = a["node"]
+        if nid not in pending or a["stats"] is None: continue
+        for (m, content) in moves_at.get(ai, []):
+            if m[5] != nid: continue
+            if m[2] == "get":
+                if kinds[nid] == "splitter": pending[nid] += list(content) + [m[4]]
+                elif a["proc"] == 0 and a["calls"] and a["calls"][0].startswith("get e0 ") and ("get", m[4]) == (m[2], int(a["calls"][0].split()[3][1:])):
+                    cpallet[nid] = m[4]
+            else:
+                if pending[nid] and pending[nid][0] == m[4]: pending[nid].pop(0)
+                elif m[4] in pending[nid]:
+                    v("C16", "emission-order", f"{kinds[nid]} {nid} put unit {m[4]} while {pending[nid][0]} was due first")
+                    pending[nid].remove(m[4])
+                else:
+                    v("C16", "emitted-other", f"{kinds[nid]} {nid} put unit {m[4]}, which is not part of what it has to emit ({pending[nid][:6]})")
+                pack_emit[nid].append((m[4], "put", a["t"], content))
+        if kinds[nid] == "combiner" and a["proc"] == 0 and any(x.startswith("spawn ") for x in a["calls"]) and nid in cpallet:
+            pending[nid].append(cpallet.pop(nid))
+        d = a["stats"]["num_item_discarded"]
+        for _ in range(d - pdisc2.get(nid, 0)):
+            if pending[nid]:
+                u = pending[nid].pop(0)
+                pack_drop_events.append((ai, 1, (ai, a["t"], "drop", None, u, nid)))
+                pack_emit[nid].append((u, "drop", a["t"], ()))
+            else:
+                v("C16", "drop-nothing", f"{kinds[nid]} {nid}: discard counter rose at t={a['t']} with nothing left to emit")
+        pdisc2[nid] = d
+    content_of = {}       # pallet -> ids it carries (as last observed at a put / get)
+    events = sorted(pack_drop_events + [(m[0], 0, m + (rec.move_content[mi],)) for mi, m in enumerate(rec.moves)] + [(ai, 1, (ai, rec.acts[ai]["t"], "drop", None, it, nid)) for ai, (nid, it) in drops.items()],
                     key=lambda x: (x[0], x[1]))
-    for _, _, (step, t, kind, e, item, nid) in events:
+    for _, _, ev in events:
+        (step, t, kind, e, item, nid) = ev[:6]
+        content = ev[6] if len(ev) > 6 else ()
         if kind == "drop":
             held[nid] = [(i, s) for (i, s) in held[nid] if i != item]
             where[item] = ("dropped", nid)
@@ -56,8 +97,14 @@ def judge_factory(rec, cfg):
             if loc is None:
                 if kinds[nid] != "source": v("C03", "invented", f"item {item} put by node {nid} which never received it")
                 created_t[item] = t
-            elif loc != ("node", nid):
+            elif loc != ("node", nid) and not (loc[0] == "pallet" and where.get(loc[1]) == ("node", nid)):
                 v("C03", "duplicated", f"item {item} put on edge {e} by node {nid} while it is at {loc}")
+            for c_ in content:      # a loaded pallet leaves: what it carries is packed in it, and was in this node (or already in it)
+                lc = where.get(c_)
+                if lc not in (("node", nid), ("pallet", item)):
+                    v("C03", "packed-elsewhere", f"pallet {item} leaves node {nid} carrying item {c_}, which is at {lc}")
+                where[c_] = ("pallet", item)
+                held[nid] = [(i, s_) for (i, s_) in held[nid] if i != c_]
             where[item] = ("edge", e); edge_in[e] += 1
             held[nid] = [(i, s) for (i, s) in held[nid] if i != item]
             put_by[nid].append((item, t, e))
@@ -137,6 +184,8 @@ def judge_factory(rec, cfg):
             for k, (pn, t0) in enumerate(spawned):
                 if k < len(pds) and pn in offer and offer[pn] != t0 + pds[k]:
                     v("C08", "delay", f"machine {nid}: item pulled at {t0} with processing delay {pds[k]} was offered downstream at {offer[pn]}")
+        if kind in ("combiner", "splitter"):
+            judge_pack_node(rec, nid, kind, n, c, acts, put_by, got_by, pack_emit[nid], pending[nid], where, v)
         # C09, non-blocking nodes: decide at once — push iff the probed edge has room, otherwise drop and count
         if kind in ("source", "machine") and not c.get("blocking", True):
             pdisc = 0; spawn_t = {}
@@ -254,6 +303,100 @@ def judge_factory(rec, cfg):
             v("C19", "time", f"node {nid} observed decreasing time")
     return V
 
+def judge_pack_node(rec, nid, kind, n, c, acts, put_by, got_by, emit, pending, where, v):
+    """splitter / combiner: recipe and emission (C16), hold time and draws (C08), blocking discipline (C09),
+    counters (C18), selection history (C15)"""
+    st = n.stats
+    blocking = c.get("blocking", True)
+    nin = len(n.in_edges); nout = len(n.out_edges)
+    proc = st["num_item_processed"]; disc = st["num_item_discarded"]
+    nput = sum(1 for e in emit if e[1] == "put"); ndrop = sum(1 for e in emit if e[1] == "drop")
+    pend = sum(1 for a in acts[-3:] if any(x.startswith("put ") for x in a["calls"]))
+    # the blocking branches count a unit as processed just before the put, the others when the push process has ended
+    if not (-1 <= nput - proc <= max(1, pend)):
+        v("C18", "counter", f"{kind} {nid}: num_item_processed {proc} but {nput} units were put downstream")
+    if disc != ndrop:
+        v("C18", "counter", f"{kind} {nid}: num_item_discarded {disc} but {ndrop} units were dropped")
+    if blocking and disc != 0:
+        v("C09", "blocking-discard", f"blocking {kind} {nid} discarded {disc} units")
+    if not blocking:
+        for a in acts:
+            if a["kind"] == "worker" and a["calls"] and (a["calls"][-1] == "await tok" or a["calls"][-1].startswith("await any")):
+                v("C09", "nonblocking-wait", f"non-blocking {kind} {nid}: its worker waits for space on an out-edge at t={a['t']}"); break
+    # draws: one per unit of work, and the delay waited is the one drawn
+    draws = [int(x.split()[1]) for a in acts for x in a["calls"] if x.startswith("draw ")]
+    pds = [f2t(x) for x in st["processing_delay"]]
+    if kind == "splitter":
+        works = [m for m in got_by[nid]]
+        waits = [int(a["calls"][-1].split()[1]) for a in acts if a["kind"] == "worker" and a["calls"] and a["calls"][-1].startswith("wait ")]
+    else:
+        works = [a for a in acts if a["proc"] == 0 and any(x.startswith("draw ") for x in a["calls"])]
+        waits = [int(a["calls"][-1].split()[1]) for a in acts[1:] if a["proc"] == 0 and a["calls"] and a["calls"][-1].startswith("wait ")]
+    if rec.crash is None:
+        if len(draws) != len(works):
+            v("C08", "draws", f"{kind} {nid}: {len(works)} units of work but the processing-delay source was consulted {len(draws)} times")
+        if waits != draws[:len(waits)] or len(draws) - len(waits) > 1:
+            v("C08", "delay", f"{kind} {nid}: delays drawn {draws[:8]} but delays waited {waits[:8]}")
+        if pds[:len(waits)] != waits:
+            v("C08", "delay", f"{kind} {nid}: stats processing_delay {pds[:8]} but delays waited {waits[:8]}")
+    # C16
+    if kind == "combiner":
+        target = list(c.get("target", [1]))
+        cur = None; loaded = {}
+        for a in acts:
+            if a["proc"] != 0: continue
+            for x, it in zip([x for x in a["calls"] if x.startswith("get ")], a["items"]):
+                e = int(x.split()[1][1:]); iid = it[0]
+                if e == 0:
+                    cur = iid; loaded[cur] = {"pre": list(it[3]) if len(it) > 3 else [], "got": []}
+                elif cur is not None:
+                    loaded[cur]["got"].append((iid, e))
+                else:
+                    v("C16", "item-without-pallet", f"combiner {nid} took item {iid} from in-edge {e} with no pallet in process")
+        for (u, what, t, content) in emit:
+            if what != "put": continue
+            if u not in loaded:
+                v("C16", "not-a-first-edge-pallet", f"combiner {nid} emitted {u}, which it did not take from its first in-edge"); continue
+            L = loaded[u]
+            want = L["pre"] + [i for i, _ in L["got"]]
+            if list(content) != want:
+                v("C16", "content", f"combiner {nid}: pallet {u} left carrying {list(content)} but {want} were loaded onto it")
+            for e in range(1, nin):
+                k = sum(1 for _, ee in L["got"] if ee == e)
+                tq = target[e] if e < len(target) else None
+                if tq is not None and k != tq:
+                    v("C16", "recipe", f"combiner {nid}: pallet {u} left with {k} items from in-edge {e}, recipe says {tq}")
+    else:
+        exp = []
+        for a in acts:
+            if a["proc"] != 0: continue
+            for x, it in zip([x for x in a["calls"] if x.startswith("get ")], a["items"]):
+                exp += list(it[3] if len(it) > 3 else []) + [it[0]]
+        done = [u for (u, what, t, content) in emit]
+        if done != exp[:len(done)]:
+            v("C16", "emission-order", f"splitter {nid} emitted/dropped {done[:10]} but the incoming pallets dictate {exp[:10]}")
+        for (u, what, t, content) in emit:
+            if what == "put" and content:
+                v("C16", "pallet-not-empty", f"splitter {nid} passed on pallet {u} still carrying {list(content)}")
+    # C15: the recorded out-edge history is the routing that happened
+    outsel = list(st["out_edge_selection"]); outp = c.get("out", "FIRST_AVAILABLE")
+    puts = [int(x.split()[1][1:]) for a in acts for x in a["calls"] if x.startswith("put ")]
+    if outp == "FIRST_AVAILABLE":
+        if not (0 <= len(puts) - len(outsel) <= 1) or outsel != puts[:len(outsel)]:
+            v("C15", "outsel-history", f"{kind} {nid}: out_edge_selection {outsel[:8]} but units were pushed to out-edges {puts[:8]}")
+    else:
+        if outp == "ROUND_ROBIN" and outsel != [i % nout for i in range(len(outsel))]:
+            v("C15", "round-robin", f"{kind} {nid}: ROUND_ROBIN out-edge sequence is {outsel[:10]}")
+        if isinstance(outp, int) and any(x != outp for x in puts):
+            v("C15", "constant", f"{kind} {nid}: constant out-edge {outp} but pushed to {sorted(set(puts))}")
+    if kind == "splitter":
+        insel = list(st["in_edge_selection"]); inp = c.get("inp", "FIRST_AVAILABLE")
+        gets = [int(x.split()[1][1:]) for a in acts for x in a["calls"] if x.startswith("get ")]
+        if insel[:len(gets)] != gets or len(insel) - len(gets) not in (0, 1):
+            v("C15", "insel-history", f"splitter {nid}: in_edge_selection {insel[:8]} but pallets were pulled from in-edges {gets[:8]}")
+        if inp == "ROUND_ROBIN" and insel != [i % nin for i in range(len(insel))]:
+            v("C15", "round-robin", f"splitter {nid}: ROUND_ROBIN in-edge sequence is {insel[:10]}")
+
 def finalize_and_judge_states(rec, cfg, T):
     """C17: call update_final_state_time(T) on every node and check the partition of elapsed time."""
     V = []
@@ -262,6 +405,7 @@ def finalize_and_judge_states(rec, cfg, T):
         try:
             n.update_final_state_time(Tf)
         except Exception as ex:
+            rec.final_exc = getattr(rec, "final_exc", {}); rec.final_exc[nid] = type(ex).__name__
             V.append(("C17", "finalize:" + type(ex).__name__, f"{kind} {nid}: update_final_state_time({T}) raised {type(ex).__name__}: {str(ex)[:80]}"))
             continue
         tt = n.stats["total_time_spent_in_states"]
@@ -306,6 +450,35 @@ def finalize_and_judge_states(rec, cfg, T):
                 if f2t(s) != T:
                     V.append(("C17", "sum", f"machine {nid}: {name} adds up to {s / TICK:g} ticks, T = {T}"))
         else:
+            if kind in ("combiner", "splitter"):
+                acts = [a for a in rec.acts if a["node"] == nid]
+                setup_end = acts[1]["t"] if len(acts) > 1 else T
+                procI = []; blkI = []
+                seen = {}
+                for a in acts:
+                    if a["kind"] == "worker": seen.setdefault(a["proc"], []).append(a)
+                if kind == "splitter":
+                    for p, L in seen.items():
+                        t0 = L[0]["t"]; t1 = L[1]["t"] if len(L) > 1 else T
+                        t2 = L[-1]["t"] if not L[-1]["alive"] else T
+                        procI.append((t0, t1)); blkI.append((t1, t2))
+                else:
+                    start = None
+                    for a in acts[1:]:
+                        if a["proc"] == 0 and a["calls"] and a["calls"][-1].startswith("wait "): start = a["t"]
+                        elif a["proc"] == 0 and start is not None and any(x.startswith("spawn ") for x in a["calls"]):
+                            procI.append((start, a["t"])); start = None
+                    if start is not None: procI.append((start, T))
+                    for p, L in seen.items():
+                        blkI.append((L[0]["t"], L[-1]["t"] if not L[-1]["alive"] else T))
+                mp = sum(min(b, T) - min(a_, T) for a_, b in procI); mb = sum(min(b, T) - min(a_, T) for a_, b in blkI)
+                m = dict(setup=min(setup_end, T), proc=mp, blocked=mb, idle=T - min(setup_end, T) - mp - mb)
+                got = dict(setup=f2t(tt["SETUP_STATE"]), proc=f2t(tt["PROCESSING_STATE"]), blocked=f2t(tt["BLOCKED_STATE"]), idle=f2t(tt["IDLE_STATE"]))
+                if got != m:
+                    V.append(("C17", "truthful", f"{kind} {nid}: charged {got} but measured from the activity {m}"))
+                occ = sum(n.time_per_work_occupancy)
+                if f2t(occ) != T:
+                    V.append(("C17", "sum", f"{kind} {nid}: worker-occupancy histogram adds up to {occ / TICK:g} ticks, T = {T}"))
             s = sum(tt.values())
             if f2t(s) != T:
                 V.append(("C17", "sum", f"{kind} {nid}: state times add up to {s / TICK:g} ticks, T = {T}"))
